@@ -20,6 +20,8 @@ import (
 //	                  return (so arrays, lists and hashes never reach the literal push)
 //	macroBranch       the body of `if found { … }` in GenerateCallBySymbol: calls made (with
 //	                  receiver), returns. The expansion must be compiled by `gen` itself.
+//	rebindScansExpansions  whether bindsName (rebindsOwnName's scan for a function that rebinds
+//	                  its own name) mentions the macro table — the driver's model follows it
 //	ctxWrites         every creation of a generator (NewGenerator / NewSubGenerator; these also
 //	                  for the other files of the package, in file-name order), every
 //	                  Reset(), every write of a field Tail / scopes / funcname, and every
@@ -264,6 +266,17 @@ func init() {
 		}
 		b.WriteString("/-- creations of generators and writes of Tail / scopes / funcname in generator.go, in source order -/\n")
 		b.WriteString(LeanList("ctxWrites", "String", writes, 60))
+		// ---- does the self-rebinding test (bindsName) look into macro expansions?
+		scans := false
+		if bn := w.FuncDecl("bindsName"); bn != nil && bn.Body != nil {
+			ast.Inspect(bn.Body, func(n ast.Node) bool {
+				if sel, ok := n.(*ast.SelectorExpr); ok && sel.Sel.Name == "macros" {
+					scans = true
+				}
+				return true
+			})
+		}
+		fmt.Fprintf(&b, "/-- `bindsName` (the test behind rebindsOwnName) consults the macro table: a macro call binds what its expansion binds -/\ndef rebindScansExpansions : Bool := %v\n", scans)
 		b.WriteString("end ZygoVerif.Generated.SQCtx\n")
 		w.Facts["sq_ctx_writes"] = len(writes)
 		return b.String(), nil
